@@ -158,6 +158,22 @@ class Style:
             return 0
 
 
+_TWO_SPELLINGS = ('seq', 'right', 'left', 'choice', 'opt', 'rep', 'sep')
+
+
+class _Plain:
+    """Style view that answers 0 (operator spelling) for the current node only."""
+
+    def __init__(self, st):
+        self.st = st
+        self.bits = st.bits
+        self.full_parens = st.full_parens
+        self.used = False
+
+    def pick(self, n):
+        return 0
+
+
 def _q(s, mode):
     if mode == 'bytes':
         if isinstance(s, str):
@@ -182,8 +198,13 @@ def _bound(b):
 
 def render_expr(n, mode='text', st=None):
     st = st or Style()
-    R = lambda x: render_expr(x, mode, st)
+    st0 = st
+    R = lambda x: render_expr(x, mode, st0)
     k = n[0]
+    if k in _TWO_SPELLINGS and any(c[0] == 'py' for c in children(n)):
+        # the constructor forms read bare inline Python as option values (documented
+        # exception), so an operand that is bare inline Python forces the operator form
+        st = _Plain(st)
     if k == 'lit':
         return _q(n[1], mode)
     if k == 'ci':
@@ -335,6 +356,7 @@ def render(g, st=None, header=None):
 
 
 _RX_NULLABLE = {}
+_IDENT = re.compile(r'[A-Za-z_][A-Za-z_0-9]*')
 _LEAF_KINDS = ('lit', 'ci', 'rx', 'byte', 'ref', 'backtrack', 'fail', 'py')
 
 
@@ -479,6 +501,10 @@ class Interp:
         self.instances = []           # Obj built on the successful path are found via result
         self._rx = {}
         self.refcalls = {}            # (rule, pos) -> number of references (C07)
+        self.bindlog = {}             # name -> set of canonical values bound during this parse
+        self.lookahead = 0            # nesting depth of Expect/ExpectNot being evaluated
+        self.skip_runs = []           # (start, end) of every non-empty skip
+        self.calls_at = {}            # (template, pos) -> set of rendered call expressions
 
     # -- helpers
     def ev_(self, name, amount=1):
@@ -508,7 +534,26 @@ class Interp:
                 break
         if p != pos:
             self.ev_('skip_' + where)
+            if self.lookahead:
+                self.ev_('skip_in_lookahead')
+            if p == len(self.text):
+                self.ev_('skip_trailing')
+            if len(self.skip_runs) < 50:
+                self.skip_runs.append((pos, p))
         return p
+
+    def note_bind(self, name, value):
+        try:
+            c = canon(value)
+        except Exception:
+            c = '?'
+        st_ = self.bindlog.setdefault(name, set())
+        if len(st_) < 4:
+            st_.add(c)
+
+    def note_read(self, name):
+        if len(self.bindlog.get(name, ())) >= 2:
+            self.ev_('read_after_rebind')
 
     def lit_value(self, s):
         if isinstance(self.text, bytes) and isinstance(s, str):
@@ -556,6 +601,7 @@ class Interp:
                 return None
             v, p = res
             if mname is not None:
+                self.note_bind(mname, v)
                 env[mname] = Bind(v, self._value_parser(v))
                 if kind == 'field':
                     fields.append((mname, v))
@@ -569,6 +615,10 @@ class Interp:
         ns = dict(self.pyglobals)
         for k, b in env.items():
             ns[k] = b.value
+        if env:
+            for ident in _IDENT.findall(src):
+                if ident in env:
+                    self.note_read(ident)
         try:
             return eval(src, ns)
         except RefError:
@@ -590,6 +640,7 @@ class Interp:
         if b.startswith('`'):
             return self.pyeval(b[1:-1], env)
         if b in env:
+            self.note_read(b)
             return env[b].value
         return self.pyeval(b, env)
 
@@ -694,14 +745,22 @@ class Interp:
                 return None
             return (out, p)
         if k == 'expect':
-            r = self.ev(n[1], pos, env)
+            self.lookahead += 1
+            try:
+                r = self.ev(n[1], pos, env)
+            finally:
+                self.lookahead -= 1
             if r is None:
                 return None
             if r[1] != pos:
                 self.ev_('rewind')
             return (r[0], pos)
         if k == 'expectnot':
-            r = self.ev(n[1], pos, env)
+            self.lookahead += 1
+            try:
+                r = self.ev(n[1], pos, env)
+            finally:
+                self.lookahead -= 1
             if r is None:
                 return (None, pos)
             if r[1] != pos:
@@ -741,6 +800,7 @@ class Interp:
             env2 = dict(env)
             if n[1] in env:
                 self.ev_('rebind')
+            self.note_bind(n[1], a[0])
             env2[n[1]] = Bind(a[0], None)
             r = self.ev(n[3], a[1], env2)
             if r is None and a[1] > pos:
@@ -867,6 +927,18 @@ class Interp:
             if kw in new or kw not in params:
                 raise RefError('bad keyword')
             new[kw] = self.make_arg(a, env)
+        for p_, b in new.items():
+            if b.parser is None or b.value is not None:
+                self.note_bind(p_, b.value)
+        if len(self.calls_at.setdefault((name, pos), set())) < 4:
+            try:
+                self.calls_at[(name, pos)].add(render_expr(n))
+            except Exception:
+                pass
+            if len(self.calls_at[(name, pos)]) >= 2:
+                self.ev_('multi_instantiation_same_pos')
+        if any(a[0] not in ('lit', 'ref', 'byte') or (a[0] == 'ref' and a[1] in env) for a in list(args) + [a for _, a in kwargs]):
+            self.ev_('nonliteral_argument')
         self.ev_('call')
         return self.call_rule(r, pos, new)
 
